@@ -71,11 +71,7 @@ class Operator:
 
             Used in dot operator for vector-vector, matrix-vector, vector-matrix and matrix-matrix multiplications.
         """
-        temp = self.index
-        self.index = index
-        result = self.term(time)
-        self.index = temp
-        return result
+        return self.clone_with_index(index).term(time)
 
     def clone_with_index(self, index):
         """
